@@ -21,8 +21,8 @@ def run(target='src/setup.rs', frag='setup_kat.rs', test_filter='rfc9180_a_1_1',
         out = r.stdout + r.stderr
         ok = ('test result: ok. %d passed' % n_tests) in out
         failed = 'test result: FAILED' in out
-        lines = [l for l in out.splitlines() if ('panicked' in l or 'left:' in l or 'right:' in l or l.startswith('test ') or 'error' in l[:8])]
-        return {'ok': ok, 'failed_natively': failed, 'compiled': ok or failed, 'output': '\n'.join(lines[:14]).replace(sc, '<scratch>'),
+        lines = [l for l in out.splitlines() if ('panicked' in l or 'assertion' in l or 'MISMATCH' in l or 'left:' in l or 'right:' in l or l.startswith('test ') or 'error' in l[:8])]
+        return {'ok': ok, 'failed_natively': failed, 'compiled': ok or failed, 'output': '\n'.join(lines[:24]).replace(sc, '<scratch>'),
                 'time_s': round(time.time() - t0, 1)}
     finally:
         shutil.rmtree(sc, ignore_errors=True)
@@ -33,6 +33,13 @@ def run_nist():
     return run('src/dhkex/ecdh_nistp.rs', 'nist_kat.rs', 'verif_nist_kat_p', 3)
 
 
+def run_auth():
+    """independent recomputation of the RFC 9180 section 4.1 Encap/AuthEncap/Decap/AuthDecap shared secret (X25519 and P-256) from the
+    crate's own DH and ExtractAndExpand; only run to look for a concrete failing input after a Verus obligation of encap_with_eph /
+    decap_body has failed"""
+    return run('src/kem/dhkem.rs', 'auth_kat.rs', 'verif_auth_recompute', 2)
+
+
 if __name__ == '__main__':
     import sys
-    print(run_nist() if 'nist' in sys.argv[1:] else run())
+    print(run_nist() if 'nist' in sys.argv[1:] else (run_auth() if 'auth' in sys.argv[1:] else run()))
